@@ -1534,7 +1534,12 @@ void OPNMIDIplay::killSustainingNotes(int32_t midCh, int32_t this_adlchn, uint32
                     hooks.onNote(hooks.onNote_userData, static_cast<int>(c), jd.loc.note, midiins, 0, 0.0);
                 jd.sustained &= ~sustain_type;
                 if(jd.sustained == OpnChannel::LocationData::Sustain_None)
-                    m_chipChannels[c].users.erase(j);//Remove only when note is clean from any holders
+                {
+                    // A key that is still held down keeps its channel: only the hold mark goes away
+                    MIDIchannel::notes_iterator k = m_midiChannels[jd.loc.MidCh].find_activenote(jd.loc.note);
+                    if(k.is_end() || k->value.isBlank || !k->value.phys_find(c))
+                        m_chipChannels[c].users.erase(j);//Remove only when note is clean from any holders
+                }
             }
         }
 
